@@ -123,3 +123,19 @@ package store
 //@     invariant forall k Int :: old(len(cursor.namespaces)) <= k && k < len(cursor.namespaces) ==> fresh(cursor.namespaces[k]) && cursor.namespaces[k].pos > pos0
 //@     invariant forall k Int :: { $PNS$[k] } 0 <= k && k <= #k ==> exists j Int :: 0 <= j && j < len(cursor.namespaces) && nsPrefix(cursor.namespaces[j].node) == nsPrefix($PNS$[k].node)
 //@     decreases len($PNS$) - #k
+
+// The event loop itself is not under a functional contract: its correctness needs a heap-wide representation
+// invariant (ownership of every list by exactly one node) that is outside what the installed solvers discharge
+// in reasonable time.  It is covered by a bounded stand-in (/verif/bounded/store, every conforming event stream up
+// to a stated length through the real code) and by the structural obligation below; both are labelled in the evidence.
+//@ func createInMemory(cursor, parse) (err)
+//@   property C10 C15
+//@   trusted
+//@   nonrecursive
+//@   requires cursor != nil
+
+//@ func CreateInMemory(parse) (r, err)
+//@   property C10 C15
+//@   trusted
+//@   nonrecursive
+//@   ensures r != nil
